@@ -93,7 +93,7 @@ func runSolver(ctx context.Context, s solverSpec, file string, timeout int) (str
 
 func solveOne(ctxc *Ctx, o *Obligation, cfg solveCfg, idx int) {
 	t0 := time.Now()
-	if o.Kind == "effect" {
+	if o.Kind == "effect" || o.Kind == "shape" {
 		return
 	}
 	if o.Goal == "true" && !o.ExpectSat {
